@@ -61,3 +61,69 @@ Fixpoint fused_read (alive : Z) (preds : list (Z * Z)) : Z * Z :=     (* (task p
 Definition fused_task_peak (wc : Z) (preds : list (Z * Z)) (extra out : Z) : Z :=
   let (p, alive) := fused_read 0 preds in
   Z.max p (alive + extra + out + out * wc).
+
+(* ------------------------------------------------------------------------- *)
+(* A fused task as the implementation runs it (apply_blockwise): ALL input blocks of all fused
+   predecessors are read first (map_nested over a list is eager) and stay referenced by the
+   argument tuple until the task ends; then the nested fused function is evaluated: a node
+   evaluates its children left to right, their results stay alive until the node's own function
+   has produced its output (extra + out), and are released when it returns. *)
+Inductive ftree :=
+| FIn (b : Z)                                   (* an input block *)
+| FOp (extra out : Z) (children : list ftree).  (* an operation of the fused function *)
+
+Fixpoint leaves (t : ftree) : list Z :=
+  match t with
+  | FIn b => [b]
+  | FOp _ _ cs => (fix go (l : list ftree) : list Z := match l with [] => [] | c :: r => leaves c ++ go r end) cs
+  end.
+
+Definition fsize (t : ftree) : Z := match t with FIn b => b | FOp _ o _ => o end.
+
+(* peak reached while evaluating t when [alive] bytes are alive before; the result (fsize t bytes,
+   nothing new for an input block) is alive afterwards *)
+Fixpoint eval_peak (alive : Z) (t : ftree) : Z :=
+  match t with
+  | FIn _ => alive
+  | FOp e o cs =>
+      (fix go (al pk : Z) (l : list ftree) : Z :=
+         match l with
+         | [] => Z.max pk (al + e + o)
+         | c :: r => go (al + match c with FIn _ => 0 | FOp _ o' _ => o' end) (Z.max pk (eval_peak al c)) r
+         end) alive alive cs
+  end.
+
+(* reading the input blocks one after the other: peak, and what is alive afterwards *)
+Fixpoint read_blocks (rc alive : Z) (bs : list Z) : Z * Z :=
+  match bs with
+  | [] => (alive, alive)
+  | b :: r => let (p, a) := read_blocks rc (alive + b) r in (Z.max (alive + b * rc + b) p, a)
+  end.
+
+Definition tree_task_peak (rc wc : Z) (t : ftree) : Z :=
+  let (p, alive) := read_blocks rc 0 (leaves t) in
+  Z.max (Z.max p (eval_peak alive t)) (alive + fsize t + fsize t * wc).
+
+(* what cubed projects for the same fused op: the optimizer fuses bottom-up with fuse_multiple, a
+   fused predecessor enters with its own projection and chunk memory, an input block read directly
+   is charged by the op's formula only *)
+Fixpoint tree_projected (rc wc : Z) (t : ftree) : Z :=
+  match t with
+  | FIn _ => 0
+  | FOp e o cs =>
+      fused_projected
+        (calc_projected 0 ((fix go (l : list ftree) : list Z := match l with [] => [] | c :: r => fsize c :: go r end) cs) e o rc wc)
+        ((fix go (l : list ftree) : list (Z * Z) :=
+            match l with
+            | [] => []
+            | FIn _ :: r => go r
+            | (FOp _ o' _ as c) :: r => (tree_projected rc wc c, o') :: go r
+            end) cs)
+  end.
+
+(* the folds used by the correspondence: term i = negative(multiply(a_i, k)) over blocks of x bytes *)
+Definition fterm (x : Z) : ftree := FOp 0 x [FOp 0 x [FIn x; FIn 0]].
+Fixpoint right_fold (x : Z) (n : nat) : ftree :=
+  match n with O => fterm x | S n' => FOp 0 x [fterm x; right_fold x n'] end.
+Fixpoint left_fold (x : Z) (n : nat) : ftree :=
+  match n with O => fterm x | S n' => FOp 0 x [left_fold x n'; fterm x] end.
